@@ -258,3 +258,174 @@ func Bad_CalleeElems(t *T) int {
 	zeroAll(t.xs)
 	return t.xs[0] - v
 }
+
+// ---- delete in a loop / in a literal argument changes the map
+func Bad_DeleteLoop(m map[string]int, ks []string) bool {
+	for _, k := range ks {
+		delete(m, k)
+	}
+	_, ok := m["a"]
+	return ok
+}
+
+func Bad_DeleteClosure(m map[string]int) bool {
+	m["a"] = 1
+	runIt(func() { delete(m, "a") })
+	_, ok := m["a"]
+	return ok
+}
+
+// ---- value semantics of structs and arrays, reference semantics of slices and maps
+type P struct{ x, y int }
+
+func Ok_StructCopy(p *P) int {
+	a := *p
+	a.x = 7
+	return p.x
+}
+
+func Bad_StructCopy(p *P) int {
+	a := p
+	a.x = 7
+	return p.x
+}
+
+func Ok_ArrayCopy(a [3]int) int {
+	b := a
+	b[0] = 9
+	return a[0]
+}
+
+func Bad_SliceAlias(s []int) int {
+	t := s[1:]
+	t[0] = 5
+	return s[1]
+}
+
+func Ok_SliceAlias(s []int) int {
+	t := s[1:]
+	t[0] = 5
+	return s[1]
+}
+
+func Bad_MapAlias(m map[string]int) int {
+	m2 := m
+	m2["a"] = 1
+	return m["a"]
+}
+
+// ---- closures capture variables by reference
+func Ok_ClosureRef() int {
+	x := 1
+	f := func() { x++ }
+	f()
+	f()
+	return x
+}
+
+func Bad_ClosureRef() int {
+	x := 1
+	f := func() { x++ }
+	f()
+	return x
+}
+
+// ---- swap, conversions, unsigned wrap-around, shifts
+func Ok_Swap(a, b int) (int, int) {
+	a, b = b, a
+	return a, b
+}
+
+func Ok_Conv8(x int) int8 {
+	return int8(x)
+}
+
+func Bad_Conv8(x int) int8 {
+	return int8(x)
+}
+
+func Ok_UnsignedSub(a, b uint32) uint32 {
+	return a - b
+}
+
+func Bad_UnsignedSub(a, b uint32) uint32 {
+	return a - b
+}
+
+func Bad_DivZero(a, b int) int {
+	return a / b
+}
+
+func Ok_DivZero(a, b int) int {
+	if b == 0 {
+		return 0
+	}
+	return a / b
+}
+
+// ---- short-circuit evaluation
+func Ok_ShortCircuit(p *P) bool {
+	return p != nil && p.x > 0
+}
+
+func Bad_ShortCircuit(p *P) bool {
+	return p.x > 0 && p != nil
+}
+
+// ---- deferred calls run in reverse order
+func Ok_DeferOrder() (r int) {
+	defer func() { r = r * 2 }()
+	defer func() { r = r + 3 }()
+	return 1
+}
+
+func Bad_DeferOrder() (r int) {
+	defer func() { r = r * 2 }()
+	defer func() { r = r + 3 }()
+	return 1
+}
+
+// ---- labelled continue / break
+func Ok_Labelled(n int) int {
+	c := 0
+outer:
+	for i := 0; i < n; i++ {
+		for j := 0; j < 2; j++ {
+			if j == 1 {
+				continue outer
+			}
+			c++
+		}
+	}
+	return c
+}
+
+// ---- switch with fallthrough
+// Gap: fallthrough is outside G0 (functions using it are reported undecided).
+func Gap_Fallthrough(x int) int {
+	r := 0
+	switch x {
+	case 1:
+		r += 1
+		fallthrough
+	case 2:
+		r += 2
+	default:
+		r += 10
+	}
+	return r
+}
+
+func Gap_Fallthrough2(x int) int {
+	r := 0
+	switch x {
+	case 1:
+		r += 1
+		fallthrough
+	case 2:
+		r += 2
+	default:
+		r += 10
+	}
+	return r
+}
